@@ -21,6 +21,15 @@ DB_W = "[tcp:response]\n" + "".join(f"label = s:unix:W{k}:\nsig = *:64:0:*:mss*{
        "label = g:unix:Any:\nsig = *:64:0:*:*,*:mss:df,id+:0\n[mtu]\nlabel = Ethernet\nsig = 1500\nlabel = odd\nsig = 1440\n"
 
 
+# records that several segments of the pool match only fuzzily (a packet TTL above the signature TTL), filed BEFORE the record
+# another segment of the pool matches exactly: a fingerprint that re-orders / promotes / memoises records shows up as a
+# different fuzzy winner later in the same history
+DB_F = "[tcp:request]\n" + "".join(f"label = s:unix:F{m}:\nsig = *:64:0:{m}:*,*:mss:df,id+:0\n" for m in (1400,)) + \
+       "".join(f"label = s:unix:X{k}:\nsig = *:64:0:*:mss*{k},*:mss:df,id+:0\n" for k in range(1, 8)) + \
+       "[tcp:response]\n" + "".join(f"label = s:unix:F{m}:\nsig = *:64:0:{m}:*,*:mss:df,id+:0\n" for m in (1400,)) + \
+       "".join(f"label = s:unix:X{k}:\nsig = *:64:0:*:mss*{k},*:mss:df,id+:0\n" for k in range(1, 8)) + "[mtu]\nlabel = Ethernet\nsig = 1500\n"
+
+
 def seg(r, flags, mss, win, ttl=64, opts_extra=b""):
     opts = b"\x02\x04" + struct.pack("!H", mss) + opts_extra
     opts += b"\x01" * (-len(opts) % 4)
@@ -45,7 +54,7 @@ def run(ctx):
     r = ctx.rng
     ops = []
     nt = set()
-    dbs = [DB_A, DB_B, DB_W]
+    dbs = [DB_A, DB_B, DB_W, DB_F, DB_F]
     for _ in range(ctx.n(1500, 30000)):
         peer = r.choice([1000, 1300, 700, 1212])
         mss = r.choice([1460, 1400])
@@ -57,9 +66,15 @@ def run(ctx):
             if win > 65535:
                 win = peer * 2
             synmss = r.choice([peer, peer, 0, 0, mss])
-            pool.append(("T", f"4:{seg(r, flags, mss, win)}:{synmss}:35"))
+            pool.append(("T", f"4:{seg(r, flags, r.choice([mss, 1400, 1460]), win, ttl=r.choice([64, 64, 70, 100, 128]))}:{synmss}:35"))
             if r.random() < 0.6:
                 pool.append(("T", f"6:{seg6(r, flags, mss, win)}:{synmss}:35"))
+        # a pair for DB_F: the first segment matches record X_k0 exactly, the second matches F1400 (filed earlier) and X_k0 only
+        # fuzzily (TTL above the signature's) - in both directions
+        k0 = r.randint(1, 7)
+        for fl in (0x02, 0x12):
+            pool.append(("T", f"4:{seg(r, fl, 1460, 1460 * k0)}:0:35"))
+            pool.append(("T", f"4:{seg(r, fl, 1400, 1400 * k0, ttl=r.choice([70, 100]))}:0:35"))
         pool.append(("T", f"4:{linux_syn(r)}:0:35"))
         pool.append(("T", f"4:{linux_syn(r, 0x12)}:{r.choice([0, 1460])}:35"))
         pool.append(("M", f"4:{seg(r, 2, r.choice([1460, 1400, 1452]), 8192)}"))
